@@ -250,6 +250,21 @@ def plumbing_cases(T):
         x = tm.inp('x', 0, w)
         r, o = I.out_lane(it, 'o', 0, sc.elem), I.out_lane(it, 'i', 0, sc.elem)
         ok = r is tm.fn('modf.ret', [x], w) and o is tm.fn('modf.out', [x], w)
+        if not ok:
+            # not the library call: the derived terms evaluated exactly at the inputs where a hand-written split goes wrong - both parts carry the sign of x
+            # (modf(-3) = (-0, -3), modf(-0) = (-0, -0)) and an infinite argument has the fractional part +-0, not inf - inf
+            from laneflow import ceval as CE
+            sign = 1 << (w - 1)
+            for v, fr, ip in ((-3.0, sign, CE.f2b(w, -3.0)), (-0.0, sign, sign), (float('inf'), 0, CE.f2b(w, float('inf'))), (float('-inf'), sign, CE.f2b(w, float('-inf'))), (2.5, CE.f2b(w, 0.5), CE.f2b(w, 2.0)),
+                              (-2.5, CE.f2b(w, -0.5), CE.f2b(w, -2.0))):
+                try:
+                    gr, go = CE.evaluate(r, {x: CE.f2b(w, v)}), CE.evaluate(o, {x: CE.f2b(w, v)})
+                except CE.NoValue:
+                    continue
+                nan = lambda b: CE.b2f(w, b) != CE.b2f(w, b)
+                if (gr != fr and not (nan(gr) and nan(fr))) or go != ip:
+                    return [R.ob('modf<%s>' % tg, 'definition', R.REFUTED, 'modf(%r): fractional part %#x and integral part %#x, the definition (both parts carry the sign of x; a fractional part of +-0 for an infinite x) gives %#x and %#x; ret %s ; out %s' % (
+                        v, gr, go, fr, ip, tm.show(r, 3), tm.show(o, 3)), where=R.where_of(ctx.fn(k), r), kernel=k.source())]
         return [R.ob('modf<%s>' % tg, 'definition', R.PROVED if ok else R.UNDECIDED, 'fractional and integral part both come from one libm modf(x)' if ok else 'ret %s ; out %s' % (tm.show(r, 3), tm.show(o, 3)), kernel=k.source())]
     cs.append(R.Case('modf<%s>' % tg, [k], jm))
     k2 = K('frexp_%s' % tg, [Par('o', sc, False), Par('e', i32, False), Par('x', sc)], '*o = frexp(*x, *e);', CFG)
